@@ -235,7 +235,7 @@ func checkSizes(c boxprop.Case) *harness.Fail {
 	// ---- the whole file through File.Size / File.Encode / File.EncodeSW, box by box (progressive file, or box-tree
 	// mode of a fragmented one; File.Size follows the encode mode): Size() == bytes written, the bytes are those of the
 	// boxes encoded one by one, and the lock-step walk holds on that output as well
-	if f := d.File; f != nil {
+	if f := d.File; f != nil && len(d.TopBoxes()) > 0 { // a file without boxes (e.g. a truncated first header) writes nothing
 		f.FragEncMode, f.EncOptimize = mp4.EncModeBoxTree, mp4.OptimizeNone
 		what := "File(progressive)"
 		if f.IsFragmented() {
